@@ -430,6 +430,8 @@ func cmdSmfGen(args []string) {
 			runWr(rec)
 			rec.Feat = featList(feat)
 			w.Put(rec)
+		case "wrx": // small-scope exhaustive: handled below the loop
+			i = *n
 		case "rd":
 			rec := &RdRec{ID: i, Judge: *judge, Bytes: genValidFile(r, *big && i%4 == 0, feat)}
 			runRd(rec)
@@ -483,7 +485,84 @@ func cmdSmfGen(args []string) {
 			hx.Die("unknown mode", *mode)
 		}
 	}
+	if *mode == "wrx" {
+		exhaustiveHistories(*n, *judge, w)
+	}
 	w.Close()
+}
+
+// exhaustiveHistories: EVERY history of up to `depth` events over the event alphabet of spec/MC_SmfRoundTrip.tla (the
+// register-relevant message kinds at delta 0, the boundary deltas with one message), in one track, with the Close
+// variants (omitted / delta 0 / multi-byte delta), for both values of NoRunningStatus.  Inputs only: TLC judges.
+func exhaustiveHistories(depth int, judge string, w *hx.Writer) {
+	msgs := [][]byte{{144, 60, 100}, {144, 61, 0}, {145, 60, 1}, {128, 60, 0}, {192, 5}, {193, 6}, {224, 0, 64},
+		{255, 1, 0}, {255, 1, 1, 65}, {255, 81, 3, 7, 161, 32}, {255, 96, 2, 1, 2},
+		{240, 1, 247}, {240, 1, 2}, {240}, {247, 1, 2}, {247, 144, 1, 2}}
+	deltas := [][]int{{0}, {127}, {1, 0}, {127, 127}, {1, 0, 0}, {127, 127, 127, 127}}
+	type pair struct {
+		d []int
+		m []byte
+	}
+	var alpha []pair
+	for _, m := range msgs {
+		alpha = append(alpha, pair{[]int{0}, m})
+	}
+	for _, d := range deltas[1:] {
+		alpha = append(alpha, pair{d, msgs[0]})
+	}
+	id := 0
+	var rec func(seq []pair)
+	emit := func(seq []pair) {
+		for _, nrs := range []bool{false, true} {
+			for cl := 0; cl < 3; cl++ {
+				h := []Op{{Op: "new", Fmt: id % 3}, {Op: "nrs", V: nrs}, {Op: "track"}}
+				for _, p := range seq {
+					h = append(h, Op{Op: "add", D: p.d, Msgs: []hx.B{append(hx.B{}, p.m...)}})
+				}
+				switch cl {
+				case 1:
+					h = append(h, Op{Op: "close", D: []int{0}})
+				case 2:
+					h = append(h, Op{Op: "close", D: []int{1, 0}})
+				}
+				h = append(h, Op{Op: "smfadd"})
+				for i := range h {
+					if h[i].D == nil {
+						h[i].D = []int{0}
+					}
+					if h[i].Msgs == nil {
+						h[i].Msgs = []hx.B{}
+					}
+				}
+				rr := &WrRec{ID: 1000000 + id, Judge: judge, Hist: h, Feat: []string{"exhaustive_small"}}
+				runWr(rr)
+				w.Put(rr)
+				id++
+			}
+		}
+	}
+	rec = func(seq []pair) {
+		if len(seq) > 0 {
+			emit(seq)
+		}
+		if len(seq) == depth {
+			return
+		}
+		for _, p := range alpha {
+			rec(append(append([]pair{}, seq...), p))
+		}
+	}
+	rec(nil)
+	if depth < 3 { // the register-relevant three-event shapes: channel message, anything, channel message
+		ch := []pair{alpha[0], alpha[1], alpha[4], alpha[2]}
+		for _, a := range ch {
+			for _, mid := range alpha {
+				for _, b := range ch {
+					emit([]pair{a, mid, b})
+				}
+			}
+		}
+	}
 }
 
 // cmdSmfRerun re-executes recorded cases from their inputs only (replay).
